@@ -364,7 +364,9 @@ func (c *Tree) Get(ctx context.Context, key interface{}, value interface{}) (boo
 	if err != nil || !contains {
 		return false, err
 	}
-	if cv.TombstoneSinceEpochNanos > 0 {
+	if cv.Tombstoned() {
+		// (not "> 0": a tombstone stamped before 1970, or with the zero
+		// time as s3db's vacuum does, is a negative number of nanoseconds)
 		return false, nil
 	}
 	if cvp, ok := value.(*crdt.Value); ok {
